@@ -136,3 +136,198 @@ def helper_return_expr(fn: FunctionInfo, call: ast.Call) -> tuple[ast.AST, Funct
         if len(tg) == 1 and isinstance(tg[0], ast.Name) and tg[0].id == body[1].value.id:
             return body[0].value, g
     return None
+
+
+# ---------------------------------------------------------------------------------------------------------------------------------
+def _chain_arms(iff: ast.If):
+    """[(test | None, body)] of an if / elif / else chain"""
+    arms = []
+    cur = iff
+    while True:
+        arms.append((cur.test, cur.body))
+        if len(cur.orelse) == 1 and isinstance(cur.orelse[0], ast.If):
+            cur = cur.orelse[0]
+            continue
+        if cur.orelse:
+            arms.append((None, cur.orelse))
+        return arms
+
+
+def _value_test(t: ast.AST):
+    """`S == C`, `S == C1 or S == C2`, `S in (C1, C2)` -> (subject source, [constant nodes]); else None"""
+    if isinstance(t, ast.Compare) and len(t.ops) == 1 and isinstance(t.ops[0], ast.Eq) and isinstance(t.comparators[0], ast.Constant) and isinstance(t.left, (ast.Name, ast.Attribute)):
+        return ast.unparse(t.left), [t.comparators[0]]
+    if isinstance(t, ast.Compare) and len(t.ops) == 1 and isinstance(t.ops[0], ast.In) and isinstance(t.comparators[0], (ast.Tuple, ast.List, ast.Set)) \
+            and all(isinstance(e, ast.Constant) for e in t.comparators[0].elts) and isinstance(t.left, (ast.Name, ast.Attribute)):
+        return ast.unparse(t.left), list(t.comparators[0].elts)
+    if isinstance(t, ast.BoolOp) and isinstance(t.op, ast.Or):
+        parts = [_value_test(v) for v in t.values]
+        if all(p is not None for p in parts) and len({p[0] for p in parts}) == 1:
+            return parts[0][0], [c for p in parts for c in p[1]]
+    return None
+
+
+def match_views(fn_node: ast.AST, own=None) -> list[ast.Match]:
+    """The `match` statements of a function *plus* one synthesised `ast.Match` for every if / elif chain that dispatches on the value
+    of one subject (`S == C [and guard]`, `S == C1 or S == C2`, `S in (...)`, a bare guard -> `case _ if guard`, `else` -> `case _`):
+    a rule written against the `match` form reads the equivalent chain the same way.  Synthesised nodes carry the line of the `if`."""
+    from .db import own_nodes
+    nodes = list(own(fn_node) if own is not None else own_nodes(fn_node))
+    out = [n for n in nodes if isinstance(n, ast.Match)]
+    elifs = {id(n.orelse[0]) for n in nodes if isinstance(n, ast.If) and len(n.orelse) == 1 and isinstance(n.orelse[0], ast.If)}
+    for iff in [n for n in nodes if isinstance(n, ast.If) and id(n) not in elifs]:
+        arms = _chain_arms(iff)
+        cases = []
+        subjects = set()
+        for test, body in arms:
+            if test is None:
+                cases.append(ast.match_case(pattern=ast.MatchAs(pattern=None, name=None), guard=None, body=body))
+                continue
+            vt, guard = _value_test(test), None
+            if vt is None and isinstance(test, ast.BoolOp) and isinstance(test.op, ast.And):
+                vt = _value_test(test.values[0])
+                if vt is not None:
+                    rest = test.values[1:]
+                    guard = rest[0] if len(rest) == 1 else ast.BoolOp(op=ast.And(), values=rest)
+            if vt is None:
+                cases.append(ast.match_case(pattern=ast.MatchAs(pattern=None, name=None), guard=test, body=body))
+                continue
+            subjects.add(vt[0])
+            pats = [ast.MatchValue(value=c) for c in vt[1]]
+            cases.append(ast.match_case(pattern=pats[0] if len(pats) == 1 else ast.MatchOr(patterns=pats), guard=guard, body=body))
+        if len(subjects) == 1 and sum(1 for c in cases if not isinstance(c.pattern, ast.MatchAs)) >= 2:
+            m = ast.Match(subject=ast.parse(next(iter(subjects)), mode="eval").body, cases=cases)
+            ast.copy_location(m, iff)
+            ast.fix_missing_locations(m)
+            out.append(m)
+    return out
+
+
+# ---------------------------------------------------------------------------------------------------------------------------------
+def _errnos_in(e: ast.AST | None) -> set[str]:
+    return {x.attr for x in ast.walk(e) if isinstance(x, ast.Attribute) and x.attr.startswith("E") and x.attr.isupper() and len(x.attr) > 2} if e is not None else set()
+
+
+def raised_errnos(fn: FunctionInfo, raise_node: ast.Raise, truth: dict[str, bool] | None = None) -> set[str]:
+    """errno constants of the error a `raise` statement can raise: written in the statement, or - for `raise helper(args)` with a private
+    helper that *returns* the error - the constants on the helper's return paths.  `truth` maps the source text of argument expressions
+    to a known truth value (`{"self._eof_reached": True}`): tests of the corresponding parameter inside the helper are decided."""
+    direct = _errnos_in(raise_node)
+    exc = getattr(raise_node, "exc", None)
+    if direct or not isinstance(exc, ast.Call):
+        return direct
+    g = private_helper(fn, exc)
+    if g is None or isinstance(g.node, ast.Lambda):
+        return set()
+    params = [a.arg for a in g.node.args.posonlyargs + g.node.args.args]
+    if g.cls is not None and params and not g.has_decorator("staticmethod"):
+        params = params[1:]
+    known: dict[str, bool] = {}
+    for i, a in enumerate(exc.args):
+        if i < len(params) and truth and ast.unparse(a) in truth:
+            known[params[i]] = truth[ast.unparse(a)]
+    for k in exc.keywords:
+        if k.arg and truth and ast.unparse(k.value) in truth:
+            known[k.arg] = truth[ast.unparse(k.value)]
+
+    def test(t) -> bool | None:
+        neg = False
+        while isinstance(t, ast.UnaryOp) and isinstance(t.op, ast.Not):
+            neg, t = not neg, t.operand
+        if isinstance(t, ast.Name) and t.id in known:
+            return known[t.id] != neg
+        return None
+
+    out: set[str] = set()
+
+    def walk(stmts) -> bool:
+        """collect the errnos of reachable returns; True if the block can fall through"""
+        for st in stmts:
+            if isinstance(st, ast.Return):
+                out.update(_errnos_in(st.value))
+                return False
+            if isinstance(st, ast.Raise):
+                out.update(_errnos_in(st))
+                return False
+            if isinstance(st, ast.If):
+                r = test(st.test)
+                ft = walk(st.body) if r is not False else True
+                ff = walk(st.orelse) if r is not True else True
+                if r is True and not ft:
+                    return False
+                if r is False and not ff:
+                    return False
+                if r is None and not ft and not ff:
+                    return False
+            elif isinstance(st, (ast.With, ast.Try)):
+                if not walk(st.body):
+                    return False
+        return True
+
+    walk(g.node.body)
+    return out
+
+
+def through_identity_helper(fn: FunctionInfo, e: ast.AST | None) -> ast.AST | None:
+    """`_check(x)` -> `x` when the private helper returns its own parameter unchanged on every return path (a validating pass-through:
+    `if x < 0: raise ...; return x`); any other expression is returned as is"""
+    hops = 0
+    while isinstance(e, ast.Call) and hops < 3:
+        g = private_helper(fn, e)
+        if g is None:
+            return e
+        params = [a.arg for a in g.node.args.posonlyargs + g.node.args.args]
+        if g.cls is not None and params and not g.has_decorator("staticmethod"):
+            params = params[1:]
+        rets = [r for r in own_nodes(g.node) if isinstance(r, ast.Return)]
+        names = {r.value.id for r in rets if isinstance(r.value, ast.Name)}
+        if not rets or len(names) != 1 or any(not isinstance(r.value, ast.Name) for r in rets):
+            return e
+        p = next(iter(names))
+        if p not in params or any(isinstance(t, ast.Name) and t.id == p and isinstance(t.ctx, ast.Store) for t in own_nodes(g.node)):
+            return e
+        i = params.index(p)
+        arg = e.args[i] if i < len(e.args) else next((k.value for k in e.keywords if k.arg == p), None)
+        if arg is None:
+            return e
+        e, hops = arg, hops + 1
+    return e
+
+
+# ---------------------------------------------------------------------------------------------------------------------------------
+class Arm:
+    """one (virtual) exception arm: the classes it is for, its statements, the real handler it belongs to"""
+    __slots__ = ("type", "body", "handler", "lineno")
+
+    def __init__(self, type_, body, handler):
+        self.type, self.body, self.handler = type_, body, handler
+        self.lineno = body[0].lineno if body else handler.lineno
+
+
+def handler_arms(try_node: ast.Try) -> list[Arm]:
+    """The except arms of a try statement, with `except E as exc:` whose body is one if / elif isinstance(exc, A) ... chain split
+    into one virtual arm per isinstance test (typed A, B, ...) plus the `else` arm (typed E): three handlers merged into a
+    dispatching one read like the three handlers."""
+    out: list[Arm] = []
+    for h in try_node.handlers:
+        body = [s for s in h.body if not (isinstance(s, ast.Expr) and isinstance(s.value, ast.Constant))]
+        if h.name and len(body) == 1 and isinstance(body[0], ast.If):
+            arms = _chain_arms(body[0])
+            virt = []
+            ok = True
+            for test, blk in arms:
+                if test is None:
+                    virt.append(Arm(h.type, blk, h))
+                elif isinstance(test, ast.Call) and isinstance(test.func, ast.Name) and test.func.id == "isinstance" and len(test.args) == 2 \
+                        and isinstance(test.args[0], ast.Name) and test.args[0].id == h.name:
+                    virt.append(Arm(test.args[1], blk, h))
+                else:
+                    ok = False
+            if ok and len(virt) >= 2:
+                if all(t is not None for t, _ in arms):
+                    # no else: the remaining instances of E leave the chain untouched (fall through = swallowed)
+                    virt.append(Arm(h.type, [], h))
+                out += virt
+                continue
+        out.append(Arm(h.type, h.body, h))
+    return out
